@@ -1102,4 +1102,96 @@ theorem demo_wf : demo.WF := by
 
 end Store
 
+/-! ## who sees a `set!` / a `define` -/
+
+namespace Store
+
+theorem resolve_define (σ : Store) (ρ : Nat) (x : String) (v : Value) (ρ' : Nat) (y : String) :
+    (σ.define ρ x v).resolve ρ' y =
+      (σ.chain ρ').find? (fun j => decide (j = ρ ∧ y = x ∧ ρ < σ.frames.size) || σ.definesAt j y) := by
+  rw [resolve_eq_find, chain_define]
+  congr 1
+  funext j
+  exact definesAt_define σ ρ x v j y
+
+/-- overwriting an existing definition does not change what any name resolves to -/
+theorem resolve_define_of_definesAt {σ : Store} {r : Nat} {x : String} (hd : σ.definesAt r x = true)
+    (v : Value) (ρ' : Nat) (y : String) : (σ.define r x v).resolve ρ' y = σ.resolve ρ' y := by
+  rw [resolve_define, resolve_eq_find]
+  congr 1
+  funext j
+  by_cases h : j = r ∧ y = x ∧ r < σ.frames.size
+  · obtain ⟨rfl, rfl, _⟩ := h
+    simp [hd]
+  · simp [h]
+
+theorem set_true {σ σ' : Store} {ρ : Nat} {x : String} {v : Value} (h : σ.set ρ x v = (true, σ')) :
+    ∃ r, σ.resolve ρ x = some r ∧ σ' = σ.define r x v := by
+  rw [set_eq] at h
+  split at h
+  · rename_i r hr
+    simp only [Prod.mk.injEq, true_and] at h
+    exact ⟨r, hr, h.symm⟩
+  · simp at h
+
+theorem lookup_after_set {σ σ' : Store} {ρ : Nat} {x : String} {v : Value}
+    (h : σ.set ρ x v = (true, σ')) (ρ' : Nat) (y : String) :
+    σ'.resolve ρ' y = σ.resolve ρ' y ∧
+    (y = x ∧ σ.resolve ρ' y = σ.resolve ρ x → σ'.lookup ρ' y = some v) ∧
+    (¬ (y = x ∧ σ.resolve ρ' y = σ.resolve ρ x) → σ'.lookup ρ' y = σ.lookup ρ' y) := by
+  obtain ⟨r, hr, rfl⟩ := set_true h
+  have hs := resolve_some hr
+  have hres := resolve_define_of_definesAt hs.1 v ρ' y
+  refine ⟨hres, fun ⟨hy, hsame⟩ => ?_, fun hnot => ?_⟩
+  · subst hy
+    rw [lookup_eq_bind, hres, hsame, hr]
+    simp [binding_define, hs.2.2]
+  · rw [lookup_eq_bind, lookup_eq_bind, hres]
+    cases hi : σ.resolve ρ' y with
+    | none => rfl
+    | some i =>
+      simp only [Option.bind_some, binding_define]
+      have : ¬ (i = r ∧ y = x ∧ r < σ.frames.size) := by
+        rintro ⟨rfl, rfl, _⟩
+        exact hnot ⟨rfl, by rw [hi, hr]⟩
+      simp [this]
+
+theorem lookup_after_define (σ : Store) {ρ : Nat} (x : String) (v : Value) (hρ : ρ < σ.frames.size)
+    (ρ' : Nat) (y : String) :
+    (y = x ∧ (σ.define ρ x v).resolve ρ' x = some ρ → (σ.define ρ x v).lookup ρ' y = some v) ∧
+    (¬ (y = x ∧ (σ.define ρ x v).resolve ρ' x = some ρ) →
+      (σ.define ρ x v).lookup ρ' y = σ.lookup ρ' y) := by
+  refine ⟨fun ⟨hy, hr⟩ => ?_, fun hnot => ?_⟩
+  · subst hy
+    rw [lookup_eq_bind, hr]
+    simp [binding_define, hρ]
+  · rw [lookup_eq_bind, lookup_eq_bind]
+    by_cases hy : y = x
+    · subst hy
+      have hne : (σ.define ρ y v).resolve ρ' y ≠ some ρ := fun h => hnot ⟨rfl, h⟩
+      have hrd := resolve_define σ ρ y v ρ' y
+      simp only [hρ, and_true] at hrd
+      cases hi : (σ.define ρ y v).resolve ρ' y with
+      | none =>
+        rw [hi] at hrd
+        have := find?_or_none hrd.symm
+        rw [← resolve_eq_find] at this
+        rw [this]; rfl
+      | some i =>
+        rw [hi] at hrd hne
+        have hir : i ≠ ρ := fun h => hne (by rw [h])
+        have := find?_or_ne hrd.symm hir
+        rw [← resolve_eq_find] at this
+        rw [this]
+        simp [binding_define, hir]
+    · have hres : (σ.define ρ x v).resolve ρ' y = σ.resolve ρ' y := by
+        rw [resolve_define, resolve_eq_find]
+        congr 1; funext j; simp [hy]
+      rw [hres]
+      cases σ.resolve ρ' y with
+      | none => rfl
+      | some i => simp [binding_define, hy]
+
+end Store
+
 end Ruschm
